@@ -302,10 +302,14 @@ static void case_random(vh_rng* r, long index) {
   /* too few arguments */
   if (nargs > 0) {
     pop(args);
-    var d2 = new(String);
-    VH_CATCH(print_to_with(d2, 0, fmt, args), exc);
-    vh_eval();
+    var d2 = new(String, $S("untouched destination"));
+    size_t p2 = vh_below(r, 10);
+    VH_CATCH(print_to_with(d2, (int)p2, fmt, args), exc);
+    vh_evals(2);
     if (exc != FormatError) { vh_violation("C14:too-few-arguments:no-formaterror", "%d arguments for %d specifications gave %s", nargs - 1, nargs, vh_exc_name(exc)); }
+    if (strcmp(c_str(d2), "untouched destination") != 0) {
+      vh_violation("C14:too-few-arguments:destination-written-before-the-error", "%d arguments for %d specifications: the destination reads \"%.60s\" after the FormatError", nargs - 1, nargs, c_str(d2));
+    }
     vh_count("too_few_argument_runs");
     del(d2);
   }
